@@ -97,16 +97,16 @@ theorem native_roundtrip_cex_untyped_props :
 /-! ## "suppressing properties (together with the node type where the format stores it with them) or alignments
 removes exactly that information" -/
 
-/-- native format: without `properties` the node comes back without properties and without type — the format stores
+/-- [definitional: holds by `rfl` on the view] native format: without `properties` the node comes back without properties and without type — the format stores
 the type inside the property block — and otherwise as with them. -/
 theorem suppress_properties_native (l s i : Bool) (n : Node) :
     viewNode ⟨false, l, s, i⟩ n = { viewNode ⟨true, l, s, i⟩ n with type := none, props := [] } := rfl
 
-/-- without `lnk` the node comes back without alignment and otherwise as with it. -/
+/-- [definitional: `rfl`] without `lnk` the node comes back without alignment and otherwise as with it. -/
 theorem suppress_lnk_native (p s i : Bool) (n : Node) :
     viewNode ⟨p, false, s, i⟩ n = { viewNode ⟨p, true, s, i⟩ n with lnk := .unspec } := rfl
 
-/-- JSON and PENMAN store the type on its own: suppressing properties leaves it. -/
+/-- [definitional: `rfl`, these three] JSON and PENMAN store the type on its own: suppressing properties leaves it. -/
 theorem suppress_properties_json (l : Bool) (n : Node) :
     viewJNode false l n = { viewJNode true l n with props := [] } := rfl
 theorem suppress_properties_penman (l : Bool) (n : Node) :
@@ -124,7 +124,7 @@ theorem reencode_stable (o : Opts) (e : EDS) (hx : Expressible e) :
   have := native_roundtrip o e hx []
   simpa using this
 
-/-- indentation only changes white space: the token stream does not depend on it. -/
+/-- [definitional: `rfl`] indentation only changes white space: the token stream does not depend on it. -/
 theorem tokens_indent_independent (p l s : Bool) (e : EDS) :
     toksE ⟨p, l, s, true⟩ e = toksE ⟨p, l, s, false⟩ e := rfl
 
@@ -175,7 +175,8 @@ theorem json_reencode_stable (p l : Bool) (e : EDS) (h : e.ids.Nodup) :
     fromDict (toDict p l (fromDict (toDict p l e))) = fromDict (toDict p l e) :=
   fromDict_toDict_fixed p l e h
 
-/-- … so re-encoding what was decoded from the re-encoded dictionary reproduces that dictionary. -/
+/-- [corollary by congruence of `json_reencode_stable`] … so re-encoding what was decoded from the re-encoded dictionary
+reproduces that dictionary. -/
 theorem json_redict_stable (p l : Bool) (e : EDS) (h : e.ids.Nodup) :
     toDict p l (fromDict (toDict p l (fromDict (toDict p l e)))) = toDict p l (fromDict (toDict p l e)) := by
   rw [fromDict_toDict_fixed p l e h]
@@ -207,6 +208,27 @@ example : Expressible ⟨some "e2".toList,
     none⟩ := by
   constructor <;> decide
 
+/-- the hypotheses of `penman_roundtrip` are satisfiable (the `Expressible` example graph, top `e2`): top is a node,
+identifiers distinct, every node connected to the top, every node `PenExpressible`. -/
+example :
+    let G : EDS := ⟨some "e2".toList,
+      [⟨"x1".toList, "pron".toList, some "x".toList, [], [("PERS".toList, "3".toList)], none, .charspan 0 2⟩,
+       ⟨"e2".toList, "_rain_v_1".toList, some "e".toList, [("ARG1".toList, "x1".toList)], [], some "a\"b".toList, .unspec⟩],
+      none⟩
+    G.targetsOk = true ∧
+    fromTriples (toTriples true true G)
+      = .ok (some "e2".toList, (topFirst G).map (fun n => (n.id, viewPRec true true n))) := by
+  intro G
+  refine ⟨by decide, penman_roundtrip true true G "e2".toList rfl (by decide) (by decide) ?_ ?_⟩
+  · have h : ∀ n ∈ G.nodes, n.id ∈ G.reach := by decide
+    exact fun n hn => (mem_reach_iff G n.id).1 (h n hn)
+  · have h : ∀ n ∈ G.nodes,
+        (∀ p ∈ n.props, isLowerPy (lower p.1) = true ∧ upper (lower p.1) = p.1
+          ∧ lower p.1 ∉ reservedRels ∧ (lower p.1).head? ≠ some ':')
+        ∧ (∀ p ∈ n.edges, isLowerPy p.1 = false ∧ p.1 ∉ reservedRels ∧ p.1.head? ≠ some ':')
+        ∧ (n.props.map (·.1)).Nodup ∧ (n.edges.map (·.1)).Nodup := by decide
+    exact fun n hn => ⟨(h n hn).1, (h n hn).2.1, (h n hn).2.2.1, (h n hn).2.2.2⟩
+
 example : (match decodeEds (toksE ⟨true, true, true, false⟩ ⟨none, [], none⟩) with
     | .ok r => decide (r.1 = ⟨none, [], none⟩ ∧ r.2 = [])
     | .error _ => false) = true := by decide
@@ -221,12 +243,7 @@ predicates, top, types, property names/values, roles and targets are SYMBOLs (`s
 feed, `: , < ( [ ] { }`, no line break, not starting with `|` or `#`); printed alignments are of a kind the LNK class
 carries (`lnkOKb`); constants are ANY strings without line breaks; the graph identifier has no white space or `{`. -/
 
-theorem lex_textE_all (o : Opts) (e : EDS) (hok : Lex.lexOKb o e = true) :
-    Lex.lex (textE o e) = some (toksE o e) := by
-  cases hi : o.indent
-  · exact Lex.lex_textE o e hi hok
-  · exact Lex.lex_textE_indent o e hi hok
-
+/-- the document form of the same: an empty line (indented) or a blank between the graphs -/
 theorem lex_dumpsText_all (o : Opts) (es : List EDS) (hok : ∀ e ∈ es, Lex.lexOKb o e = true) :
     Lex.lex (dumpsText o es) = some (es.flatMap (toksE o)) := by
   cases hi : o.indent
@@ -236,7 +253,10 @@ theorem lex_dumpsText_all (o : Opts) (es : List EDS) (hok : ∀ e ∈ es, Lex.le
 /-- [core] the lexer reads the encoder's text of a lexable graph — with and without indentation, status markers
 shown or hidden — as exactly the token view the token-level theorems are stated over. -/
 theorem lexer_reads_encoder_text (o : Opts) (e : EDS) (hok : Lex.lexOKb o e = true) :
-    Lex.lex (textE o e) = some (toksE o e) := lex_textE_all o e hok
+    Lex.lex (textE o e) = some (toksE o e) := by
+  cases hi : o.indent
+  · exact Lex.lex_textE o e hi hok
+  · exact Lex.lex_textE_indent o e hi hok
 
 /-- [core] `decode (encode e) = view e` on TEXT, for all sixteen option vectors: "for every EDS, decoding its native …
 encoding yields the same top, node identifiers, predicates, types, properties, constants, alignments and
@@ -246,7 +266,7 @@ theorem native_roundtrip_text (o : Opts) (e : EDS) (hx : Expressible e) (hok : L
     Lex.decodeText (textE o e) = .ok (viewE o e) := by
   have h := native_roundtrip o e hx []
   simp only [List.append_nil] at h
-  simp [Lex.decodeText, lex_textE_all o e hok, decodeOne, h, bind, Except.bind, pure, Except.pure]
+  simp [Lex.decodeText, lexer_reads_encoder_text o e hok, decodeOne, h, bind, Except.bind, pure, Except.pure]
 
 /-- [core] the multi-graph list form on text: `loads (dumps es) = es.map view`, both layouts, also for no graph. -/
 theorem docs_roundtrip_text (o : Opts) (es : List EDS) (hx : ∀ e ∈ es, Expressible e)
@@ -272,8 +292,8 @@ example : Lex.lexOKb ⟨true, true, true, false⟩ ⟨some "e2".toList,
 arguments) of every public function of the three codecs and of the constructors, and for every anchored function its
 load skeleton read from the code object (`harness.c03.skel`: in instruction order the string / integer / None / Boolean
 constants, the global names, the attribute and method names and the comparison operators; docstrings and message
-texts dropped; no source text, no layout).  A change to any of them must be followed in the model (and here): this
-theorem stops checking, which the check reports as a broken proof obligation and then searches for a failing input.
+texts dropped; no source text, no layout).  A change to any of them must be followed in the model (and here):
+`c03_pins` stops checking, which the check reports as a broken proof obligation and then searches for a failing input.
 
 Which model definition hand-codes what:
 * `c03LexerTokens`/`c03LexerFlags` — the token classes `K` and the token texts of `Model.lean` (`tLbrace` … `tSym`, `tFragmented`,
